@@ -26,9 +26,10 @@ def neutral(rec):
 
 
 def good(o):
-    return bool(o) and o.get("ok") and not o.get("entries") and not o.get("panic") \
-        and not o.get("timeout") and not o.get("died") \
-        and not o.get("session", {}).get("parsing") and not o.get("session", {}).get("operational")
+    return bool(o and o.get("ok") and not o.get("entries") and not o.get("panic")
+                and not o.get("timeout") and not o.get("died")
+                and not o.get("session", {}).get("parsing")
+                and not o.get("session", {}).get("operational"))
 
 
 def run(tier, seed, replay=None):
